@@ -1,6 +1,7 @@
 package props
 
 import (
+	"crypto/sha256"
 	"fmt"
 	"math/big"
 	"sort"
@@ -95,7 +96,10 @@ func (w *balWorld) name(b []byte) string {
 func (w *balWorld) freshAddr() util.Uint160 {
 	w.fresh++
 	var u util.Uint160
-	copy(u[:], []byte(fmt.Sprintf("lock-account-%06d!", w.fresh)))
+	// (a digest, so that the storage order of lock accounts is unrelated to the order of their creation: a later
+	// lock may sort before or after an earlier one, next to it or far away)
+	d := sha256.Sum256([]byte(fmt.Sprintf("lock-account-%06d!", w.fresh)))
+	copy(u[:], d[:20])
 	w.names[u] = fmt.Sprintf("lock%d", w.fresh)
 	return u
 }
